@@ -59,6 +59,7 @@ type Contract struct {
 }
 
 type ContractSet struct {
+	Preds map[string]bool // pkgpath.name of pred-generated functions
 	ByKey map[string]*Contract
 	List  []*Contract
 	// per package: extra Go source from the generator
@@ -89,7 +90,11 @@ func parseContractComments(fset *token.FileSet, f *ast.File, pkgPath string) ([]
 				if lastClause != nil {
 					lastClause.Expr += " " + text
 				} else if lastList != nil && len(*lastList) > 0 {
-					(*lastList)[len(*lastList)-1] += " " + text
+					joined := (*lastList)[len(*lastList)-1] + " " + text
+					*lastList = (*lastList)[:len(*lastList)-1]
+					for _, p := range splitTop(joined, ',') {
+						*lastList = append(*lastList, strings.TrimSpace(p))
+					}
 				} else {
 					return nil, fmt.Errorf("%s: continuation line without clause: %s", where, text)
 				}
@@ -207,7 +212,14 @@ func parseContractComments(fset *token.FileSet, f *ast.File, pkgPath string) ([]
 }
 
 func qualifyIface(nm, pkgPath string) string {
-	// "Store.AddMessage" -> pkgPath.Store.AddMessage ; "storage.Store.AddMessage" handled by caller providing full import path is not needed
+	// "Store.AddMessage" -> pkgPath.Store.AddMessage ; "net.Conn.Close" / "net/textproto.X.M" are already qualified
+	tail := nm
+	if i := strings.LastIndex(nm, "/"); i >= 0 {
+		tail = nm[i+1:]
+	}
+	if strings.Count(tail, ".") >= 2 {
+		return nm
+	}
 	return pkgPath + "." + nm
 }
 
@@ -530,10 +542,13 @@ func vcMod1[T any](p *T)                     {}
 func vcModElems[T any](s []T)                {}
 func vcModMap[K comparable, V any](m map[K]V) {}
 func vcFresh[T any](p T) bool                { return true }
+func vcModGhost[T any](name string, obj T)    {}
+func vcSameSlice[T any](a, b []T) bool        { return len(a) == len(b) && (len(a) == 0 || &a[0] == &b[0]) }
 func vcByteStr(c byte) string                { return string([]byte{c}) }
 `
 
 type genCtx struct {
+	cs  *ContractSet
 	w   *World
 	pkg *Pkg
 	qf  types.Qualifier
@@ -618,7 +633,7 @@ func Generate(w *World, cs *ContractSet) error {
 			return fmt.Errorf("contracts for unknown package %s", path)
 		}
 		lp := w.loaded[path] // phase-1 type info (nil for synthetic packages)
-		g := &genCtx{w: w, pkg: pk, imports: map[string]string{}}
+		g := &genCtx{cs: cs, w: w, pkg: pk, imports: map[string]string{}}
 		g.qf = func(p *types.Package) string {
 			if p.Path() == path {
 				return ""
@@ -709,6 +724,9 @@ func (g *genCtx) genContract(c *Contract, lp interface{}, out *strings.Builder) 
 			return fmt.Errorf("%s: %v", c.Pos, err)
 		}
 		fmt.Fprintf(out, "\n// %s pred\nfunc %s { return %s }\n", c.Pos, c.Sig, e)
+		if i := strings.Index(c.Sig, "("); i > 0 {
+			g.cs.Preds[c.PkgPath+"."+strings.TrimSpace(c.Sig[:i])] = true
+		}
 		return nil
 	}
 	base := sanitize(strings.TrimPrefix(strings.TrimPrefix(c.Key, "iface:"), c.PkgPath+"."))
@@ -762,7 +780,7 @@ func (g *genCtx) genContract(c *Contract, lp interface{}, out *strings.Builder) 
 		c.ModFn = "vc_mod_" + base
 		var ms []string
 		for _, m := range c.Modifies {
-			if m == "*" || m == "nothing" {
+			if m == "*" || m == "nothing" || strings.TrimSpace(m) == "" {
 				continue
 			}
 			ms = append(ms, m)
@@ -817,6 +835,9 @@ func modStmts(ms []string) string {
 			fmt.Fprintf(&b, "vcModElems(%s); ", m[6:len(m)-1])
 		case strings.HasPrefix(m, "mapof(") && strings.HasSuffix(m, ")"):
 			fmt.Fprintf(&b, "vcModMap(%s); ", m[6:len(m)-1])
+		case strings.HasPrefix(m, "ghost_") && strings.HasSuffix(m, ")"):
+			i := strings.Index(m, "(")
+			fmt.Fprintf(&b, "vcModGhost(%q, %s); ", m[:i], m[i+1:len(m)-1])
 		default:
 			fmt.Fprintf(&b, "vcMod1(&%s); ", m)
 		}
